@@ -10,6 +10,8 @@ CONSTANTS
   ChirpKeyByChannel = TRUE
   EagerOps <- None_
   NumpyOps <- None_
+  ReaderPerBlock = FALSE
+  OverwriteTags <- None_
 VIEW View
 INVARIANT TypeOK
 INVARIANT SameAsNumpy
@@ -21,4 +23,5 @@ PROPERTY LazyDone
 PROPERTY StaysDask
 PROPERTY ContainerOnly
 PROPERTY PersistHolds
+PROPERTY InputsStable
 CHECK_DEADLOCK FALSE
